@@ -35,6 +35,7 @@ def is_learner_expr(e):
 class Path:
     def __init__(self):
         self.conds = []
+        self.entry = []      # parallel to conds: the condition was evaluated on the state the method was entered with
         self.events = []
         self.done = False
         self.writes = []     # (target_src, stmt_src, value_src)
@@ -44,6 +45,7 @@ class Path:
     def clone(self):
         p = Path()
         p.conds = list(self.conds)
+        p.entry = list(self.entry)
         p.events = list(self.events)
         p.done = self.done
         p.writes = list(self.writes)
@@ -66,6 +68,32 @@ def subst(e, env):
                     return n
             return n
     return S().visit(ast.parse(ast.unparse(e), mode="eval").body)
+
+
+def _self_deps(src):
+    try:
+        e = ast.parse(src, mode="eval").body
+    except SyntaxError:
+        return {"?"}
+    out = set()
+    for n in ast.walk(e):
+        if isinstance(n, ast.Attribute) and isinstance(n.value, ast.Name) and n.value.id == "self":
+            out.add("self." + n.attr)
+    return out
+
+
+def _fresh(cond_src, p):
+    """No location the condition reads has been written earlier on the path."""
+    deps = _self_deps(cond_src)
+    for w in p.writes:
+        base = w[0].replace("[]", "").split("[")[0]
+        if base in deps or "?" in deps:
+            return False
+    return True
+
+
+def entry_conds(p):
+    return [c for c, f in zip(p.conds, p.entry) if f]
 
 
 def _ev(p, e):
@@ -209,6 +237,9 @@ class Walker:
                 pa, pb = p.clone(), p.clone()
                 pa.conds.append((c, True))
                 pb.conds.append((c, False))
+                fresh = _fresh(c, p)
+                pa.entry.append(fresh)
+                pb.entry.append(fresh)
                 a.append(pa)
                 b.append(pb)
             out += self.block(list(s.body), a)
@@ -326,6 +357,7 @@ class Walker:
                             for spath in sub:
                                 q = p.clone()
                                 q.conds += spath.conds
+                                q.entry += [f and _fresh(c, p) for (c, _), f in zip(spath.conds, spath.entry)]
                                 wi = 0
                                 for item in spath.seq:
                                     if item[0] == "ev":
